@@ -197,6 +197,39 @@ def decompressFrame (src : Bytes) (ip0 remaining0 : Nat) (dict : Dict) (out0 : B
   return (out, ip - ip0, { hdr := h, start := ip0, size := ip - ip0, regenStart := frameStart, regenSize := out.size - frameStart,
                            blocks := blocks, storedChecksum := storedCk })
 
+/-- decode a PREFIX of a single frame that ends on a block boundary (what a completed flush must make decodable):
+header + complete blocks; stops cleanly when the input ends at a block boundary (or after the last block + checksum) -/
+def decompressPrefix (src : Bytes) (dict : Dict) (cap : Nat) (o : Opts := {}) : R ByteArray := do
+  if src.size == 0 then return ByteArray.empty
+  let fhd := src.u8 (if o.magicless then 0 else 4)
+  let fhSize := headerSizeOf fhd o.magicless
+  let h ← match getHeader src 0 src.size o.magicless with
+    | .ok h => if h.skippable then throw .prefixUnknown else pure h
+    | .need _ => throw .srcSizeWrong
+    | .err e => throw e
+  let blockSizeMax := if o.maxBlockSize != 0 then min h.blockSizeMax o.maxBlockSize else h.blockSizeMax
+  let mut ip := fhSize
+  let mut out := ByteArray.empty
+  let mut ent := dict.ent
+  for _ in [0:src.size] do
+    if ip == src.size then break
+    let bh ← blockHeader src ip (src.size - ip)
+    ip := ip + ZSTD_blockHeaderSize
+    if bh.cSize > src.size - ip then throw .srcSizeWrong
+    if bh.ty == 2 then
+      let (out', ent', _) ← Block.decodeBlock src ip bh.cSize ent dict.content { out := out, frameStart := 0, cap := cap } blockSizeMax
+      out := out'
+      ent := ent'
+    else if bh.ty == 0 then
+      if bh.cSize > cap - out.size then throw .dstTooSmall
+      out := out ++ src.extract ip (ip + bh.cSize)
+    else
+      if bh.origSize > cap - out.size then throw .dstTooSmall
+      out := out ++ ByteArray.mk (Array.replicate bh.origSize (UInt8.ofNat (src.u8 ip)))
+    ip := ip + bh.cSize
+    if bh.last then break
+  return out
+
 /-- readSkippableFrameSize -/
 def skippableSize (src : Bytes) (ip remaining : Nat) : R Nat :=
   if remaining < ZSTD_SKIPPABLEHEADERSIZE then .error .srcSizeWrong
